@@ -48,13 +48,13 @@ var targets = []target{
 		"Header.GetErrorCode", "Header.GetOriginTime", "Header.SetOriginTime", "Header.GetCounter", "Header.SetCounter",
 		"Header.GetTotalSize", "Header.SetTotalSize", "Header.GetPartIndex", "Header.SetPartIndex",
 		"Header.GetPartCount", "Header.SetPartCount", "Header.SetTimeout",
-		"newCollector", "collector.addPart", "collector.isComplete"}},
+		"newCollector", "collector.addPart", "collector.isComplete", "extractErrorCode"}},
 	{Pkg: "go.brendoncarroll.net/p2p/p/p2pmux", Funcs: []string{"uint16MuxFunc", "uint16DemuxFunc", "uint32MuxFunc",
 		"uint32DemuxFunc", "uint64MuxFunc", "uint64DemuxFunc", "varintMuxFunc", "varintDemuxFunc", "stringMuxFunc",
 		"stringDemuxFunc"}},
 	{Pkg: "go.brendoncarroll.net/p2p/s/fragswarm", Funcs: []string{"appendUvarint", "newMessage", "parseMessage"}},
 	{Pkg: "go.brendoncarroll.net/p2p/p/p2pke", Funcs: []string{"newMessage", "ParseMessage", "Message.GetNonce",
-		"Message.SetNonce", "Message.HeaderBytes", "Message.Body"}},
+		"Message.SetNonce", "Message.HeaderBytes", "Message.Body", "IsInitHello", "IsRespHello", "IsHello", "IsPostHandshake"}},
 	{Pkg: "golang.zx2c4.com/wireguard/replay", Funcs: []string{"Filter.Reset", "Filter.ValidateCounter"}},
 }
 
